@@ -94,7 +94,9 @@ type Universe interface {
 var lastPanicked bool
 
 // state identity: spare capacity counts (growth thresholds), stale slots beyond len do not
-func canon(x Inst) string { return deepString(x.Target(), x.Mask(), false, x.Fam() == "map" || x.Fam() == "set") }
+func canon(x Inst) string {
+	return deepString(x.Target(), x.Mask(), false, x.Fam() == "map" || x.Fam() == "set")
+}
 
 func fullFP(x Inst) string { return fpOf(deepString(x.Target(), nil, true, false)) }
 
@@ -152,6 +154,11 @@ func tour(u Universe, maxStates int) (states, edges int) {
 	seen := map[string]bool{k0: true}
 	queue := []node{{nil}}
 	for len(queue) > 0 {
+		if budgetExceeded() {
+			// a changed implementation may have a much larger state graph: stop expanding, keep the verdicts so far
+			extraStats["tour_truncated"] = true
+			break
+		}
 		n := queue[0]
 		queue = queue[1:]
 		states++
@@ -189,6 +196,12 @@ func tour(u Universe, maxStates int) (states, edges int) {
 		}
 	}
 	return
+}
+
+var jobDeadline int64 // unix nanos; 0 = none
+
+func budgetExceeded() bool {
+	return jobDeadline != 0 && nowNanos() > jobDeadline
 }
 
 func replay(u Universe, path []Call) Inst {
